@@ -18,6 +18,8 @@ pub fn pool() -> Vec<V> {
         // the ends of the integer range next to floats far outside it
         V::Int(i64::MAX), V::Int(i64::MIN), V::Float(1e19), V::Float(-1e19),
         V::s("1"), V::s("10"), V::s("abc"), V::s("ABC"), V::s("a"), V::s(""), V::s(" "), V::s("true"),
+        // whitespace-only beyond ASCII (blank, as for Rust's trim and Rails' blank?) and almost-blank
+        V::s("\u{a0}\u{2003}"), V::s(" \u{a0}x"),
         V::Arr(vec![]), V::Arr(vec![V::Int(1)]), V::Arr(vec![V::Int(1), V::Int(2)]), V::Arr(vec![V::s("a")]),
         V::Obj(vec![]), V::obj(&[("k", V::Int(1))]), V::obj(&[("a", V::Int(1))]),
         V::Empty, V::Blank, V::Arr(vec![V::Nil]),
